@@ -36,13 +36,21 @@ theorem no_panic_encryptionMechanism (i : SDIn) : (encryptionMechanism i).isPani
       · rfl
       · split <;> rfl
 
-theorem no_panic_sdPackage (n : Nat) (h : 8 ≤ n) : (sdPackage n).isPanic = false := by
+theorem no_panic_sdPackage (n z : Nat) (h : 8 ≤ n) : (sdPackage n z).isPanic = false := by
   unfold sdPackage
   split
   · rename_i h2; exfalso; apply h2; simp [sliceOK]; omega
-  · split <;> rfl
+  · split
+    · rfl
+    · split
+      · rename_i h2; exfalso; apply h2; simp [sliceOK]; omega
+      · split
+        · split
+          · rename_i h2; exfalso; apply h2; simp [sliceOK]; omega
+          · rfl
+        · rfl
 
-theorem no_panic_sdKey (k n : Nat) (h : 8 ≤ n) : (sdKey k n).isPanic = false := by
+theorem no_panic_sdKey (k n z : Nat) (h : 8 ≤ n) : (sdKey k n z).isPanic = false := by
   unfold sdKey
   split
   · rfl
@@ -50,9 +58,9 @@ theorem no_panic_sdKey (k n : Nat) (h : 8 ≤ n) : (sdKey k n).isPanic = false :
     · rename_i h1 h2; exfalso; apply h2; unfold x3Len at h1; simp [sliceOK, x3Len]; exact decide_eq_true (by omega)
     · split
       · rfl
-      · exact no_panic_sdPackage n h
+      · exact no_panic_sdPackage n z h
 
-theorem no_panic_sdVerifier (v a k n : Nat) (h : 8 ≤ n) : (sdVerifier v a k n).isPanic = false := by
+theorem no_panic_sdVerifier (v a k n z : Nat) (h : 8 ≤ n) : (sdVerifier v a k n z).isPanic = false := by
   unfold sdVerifier
   split
   · rfl
@@ -60,7 +68,7 @@ theorem no_panic_sdVerifier (v a k n : Nat) (h : 8 ≤ n) : (sdVerifier v a k n)
     · rename_i h1 h2; exfalso; apply h2
       have : 60 ≤ verifierSize a := by unfold verifierSize; split <;> omega
       simp [sliceOK]; omega
-    · exact no_panic_sdKey k n h
+    · exact no_panic_sdKey k n z h
 
 theorem no_panic_standardDecrypt (i : SDIn) : (standardDecrypt i).isPanic = false := by
   unfold standardDecrypt
@@ -78,10 +86,10 @@ theorem no_panic_standardDecrypt (i : SDIn) : (standardDecrypt i).isPanic = fals
   · rename_i h; exfalso; apply h; simp [sliceOK]; omega
   split
   · rename_i h; exfalso; apply h; simp [sliceOK]; omega
-  exact no_panic_sdVerifier _ _ _ _ (by omega)
+  exact no_panic_sdVerifier _ _ _ _ _ (by omega)
 
 theorem standardDecrypt_len (i : SDIn) (n : Nat) (h : standardDecrypt i = .ok n) :
-    n + 8 = i.pkgLen ∧ n % 16 = 0 := by
+    n + 8 ≤ i.pkgLen ∧ n ≤ i.pkgSize ∨ n + 8 = i.pkgLen := by
   unfold standardDecrypt at h
   split at h
   · cases h
@@ -113,8 +121,13 @@ theorem standardDecrypt_len (i : SDIn) (n : Nat) (h : standardDecrypt i = .ok n)
   · cases h
   split at h
   · cases h
+  split at h
   · cases h
-    omega
+  split at h
+  · split at h
+    · cases h
+    · cases h; left; omega
+  · cases h; right; omega
 
 /-! ## worksheet rows -/
 
@@ -595,5 +608,222 @@ theorem scan_bound (T : Int) (hT : 0 ≤ T) (rows : List Row) : ∀ (row : Int) 
       simp only [List.length_cons] at this ⊢
       omega
 
+
+/-! ## checkSheet only moves cells -/
+
+
+/-- every cell of the grid satisfies `P` -/
+def CellsP (P : Cell → Prop) (g : Grid) : Prop := ∀ r ∈ g, ∀ c ∈ r.cells, P c
+
+theorem getD_cells_P {P : Cell → Prop} {g : Grid} (h : CellsP P g) (i : Nat) :
+    ∀ c ∈ (g.getD i emptyRow).cells, P c := by
+  intro c hc
+  by_cases hi : i < g.length
+  · have : g.getD i emptyRow = g[i] := by simp [List.getD, hi]
+    rw [this] at hc
+    exact h _ (List.getElem_mem hi) c hc
+  · have : g.getD i emptyRow = emptyRow := by simp [List.getD, hi]
+    rw [this] at hc
+    simp [emptyRow] at hc
+
+theorem padTo_P {P : Cell → Prop} (he : P emptyCell) {cells : List Cell} (h : ∀ c ∈ cells, P c) (n : Nat) :
+    ∀ c ∈ padTo cells n, P c := by
+  intro c hc
+  unfold padTo at hc
+  rcases List.mem_append.mp hc with h1 | h2
+  · exact h c h1
+  · have := (List.mem_replicate.mp h2).2
+    rw [this]; exact he
+
+theorem set_P {α : Type} {P : α → Prop} {l : List α} (h : ∀ c ∈ l, P c) (i : Nat) {x : α} (hx : P x) :
+    ∀ c ∈ l.set i x, P c := by
+  intro c hc
+  rcases List.mem_or_eq_of_mem_set hc with h1 | h2
+  · exact h c h1
+  · rw [h2]; exact hx
+
+theorem gridset_P {P : Cell → Prop} {g : Grid} (h : CellsP P g) (i : Nat) {rw : Row} (hr : ∀ c ∈ rw.cells, P c) :
+    CellsP P (g.set i rw) := by
+  intro r hr' c hc
+  rcases List.mem_or_eq_of_mem_set hr' with h1 | h2
+  · exact h r h1 c hc
+  · rw [h2] at hc; exact hr c hc
+
+theorem place_P {P : Cell → Prop} (he : P emptyCell) {g g' : Grid} {col row : Int} {r0 : Bool} {cell : Cell}
+    (hp : place g col row r0 cell = .ok g') (hg : CellsP P g) (hc : P cell) : CellsP P g' := by
+  unfold place at hp
+  split at hp
+  · cases hp
+  · rename_i ri _
+    simp only at hp
+    split at hp
+    · cases hp
+    · rename_i ci _
+      simp only [Outcome.ok.injEq] at hp
+      subst hp
+      apply gridset_P hg
+      simp only
+      have hpad := padTo_P he (getD_cells_P hg ri) col.toNat
+      split <;> split <;> first
+        | exact set_P (set_P hpad _ hc) _ hc
+        | exact set_P hpad _ hc
+        | exact hpad
+
+theorem r0Pass_P {P : Cell → Prop} (he : P emptyCell) (rowR : Int) (r0 : Bool) (cells : List Cell) :
+    ∀ (g g' : Grid) (i : Nat), r0Pass g rowR r0 cells i = .ok g' → CellsP P g → (∀ c ∈ cells, P c) → CellsP P g' := by
+  induction cells with
+  | nil => intro g g' i h hg _; simp [r0Pass] at h; subst h; exact hg
+  | cons c cs ih =>
+    intro g g' i h hg hc
+    have hcs : ∀ x ∈ cs, P x := fun x hx => hc x (List.mem_cons_of_mem _ hx)
+    have hc0 : P c := hc c List.mem_cons_self
+    unfold r0Pass at h
+    split at h
+    · cases hpl : place g ((i : Int) + 1) rowR r0 c with
+      | ok g1 => rw [hpl] at h; simp only [Outcome.bind] at h; exact ih g1 g' _ h (place_P he hpl hg hc0) hcs
+      | err => rw [hpl] at h; simp [Outcome.bind] at h
+      | panic => rw [hpl] at h; simp [Outcome.bind] at h
+    · split at h
+      · rename_i col row _
+        split at h
+        · cases hpl : place g col row r0 c with
+          | ok g1 => rw [hpl] at h; simp only [Outcome.bind] at h; exact ih g1 g' _ h (place_P he hpl hg hc0) hcs
+          | err => rw [hpl] at h; simp [Outcome.bind] at h
+          | panic => rw [hpl] at h; simp [Outcome.bind] at h
+        · exact ih g g' _ h hg hcs
+      · exact ih g g' _ h hg hcs
+
+theorem placeRows_P {P : Cell → Prop} (kept : List Row) : ∀ (g g' : Grid) (last last' : Int),
+    placeRows g last kept = .ok (g', last') → CellsP P g → (∀ r ∈ kept, ∀ c ∈ r.cells, P c) → CellsP P g' := by
+  induction kept with
+  | nil => intro g g' l l' h hg _; simp [placeRows] at h; rw [← h.1]; exact hg
+  | cons r rest ih =>
+    intro g g' l l' h hg hk
+    have hrest : ∀ x ∈ rest, ∀ c ∈ x.cells, P c := fun x hx => hk x (List.mem_cons_of_mem _ hx)
+    unfold placeRows at h
+    split at h
+    · split at h
+      · cases h
+      · exact ih _ _ _ _ h (gridset_P hg _ (hk r List.mem_cons_self)) hrest
+    · exact ih _ _ _ _ h hg hrest
+
+theorem r0Rows_P {P : Cell → Prop} (he : P emptyCell) (r0 : List Row) : ∀ (g g' : Grid),
+    r0Rows g r0 = .ok g' → CellsP P g → (∀ r ∈ r0, ∀ c ∈ r.cells, P c) → CellsP P g' := by
+  induction r0 with
+  | nil => intro g g' h hg _; simp [r0Rows] at h; subst h; exact hg
+  | cons r rest ih =>
+    intro g g' h hg hk
+    have hrest : ∀ x ∈ rest, ∀ c ∈ x.cells, P c := fun x hx => hk x (List.mem_cons_of_mem _ hx)
+    unfold r0Rows at h
+    split at h
+    · cases h
+    · rename_i i _
+      simp only at h
+      have hg1 : CellsP P (g.set i { (g.getD i emptyRow) with r := r.r }) :=
+        gridset_P hg i (getD_cells_P hg i)
+      cases hp : r0Pass (g.set i { (g.getD i emptyRow) with r := r.r }) r.r true r.cells 0 with
+      | ok g2 =>
+        rw [hp] at h; simp only [Outcome.bind] at h
+        exact ih g2 g' h (r0Pass_P he _ _ _ _ _ _ hp hg1 (hk r List.mem_cons_self)) hrest
+      | err => rw [hp] at h; simp [Outcome.bind] at h
+      | panic => rw [hp] at h; simp [Outcome.bind] at h
+
+theorem fillRows_P {P : Cell → Prop} (he : P emptyCell) : ∀ (k : Nat) (g g' : Grid) (i : Nat),
+    fillRows g i k = .ok g' → CellsP P g → CellsP P g' := by
+  intro k
+  induction k with
+  | zero => intro g g' i h hg; simp [fillRows] at h; subst h; exact hg
+  | succ k ih =>
+    intro g g' i h hg
+    unfold fillRows at h
+    split at h
+    · cases h
+    · rename_i j _
+      simp only at h
+      have hrow : ∀ c ∈ ({ (g.getD j emptyRow) with r := (i : Int) } : Row).cells, P c := getD_cells_P hg j
+      have hg1 : CellsP P (g.set j { (g.getD j emptyRow) with r := (i : Int) }) := gridset_P hg j hrow
+      cases hp : r0Pass (g.set j { (g.getD j emptyRow) with r := (i : Int) }) (i : Int) false
+          ({ (g.getD j emptyRow) with r := (i : Int) } : Row).cells 0 with
+      | ok g2 =>
+        rw [hp] at h; simp only [Outcome.bind] at h
+        exact ih g2 g' _ h (r0Pass_P he _ _ _ _ _ _ hp hg1 hrow)
+      | err => rw [hp] at h; simp [Outcome.bind] at h
+      | panic => rw [hp] at h; simp [Outcome.bind] at h
+
+theorem scan_cells_P {P : Cell → Prop} (rows : List Row) : ∀ (row : Int) (r0 kept : List Row),
+    (∀ r ∈ rows, ∀ c ∈ r.cells, P c) → (∀ r ∈ r0, ∀ c ∈ r.cells, P c) → (∀ r ∈ kept, ∀ c ∈ r.cells, P c) →
+    (∀ r ∈ (scan rows row r0 kept).2.1, ∀ c ∈ r.cells, P c) ∧
+    (∀ r ∈ (scan rows row r0 kept).2.2, ∀ c ∈ r.cells, P c) := by
+  induction rows with
+  | nil =>
+    intro row r0 kept _ h0 hk
+    unfold scan
+    exact ⟨fun r hr => h0 r (by simpa using hr), fun r hr => hk r (by simpa using hr)⟩
+  | cons r rest ih =>
+    intro row r0 kept hr h0 hk
+    have hrest : ∀ x ∈ rest, ∀ c ∈ x.cells, P c := fun x hx => hr x (List.mem_cons_of_mem _ hx)
+    have hr1 := hr r List.mem_cons_self
+    unfold scan
+    split
+    · simp only
+      apply ih _ _ _ hrest _ hk
+      intro x hx
+      cases hx with
+      | head => exact hr1
+      | tail _ hx' => exact h0 x hx'
+    · simp only
+      apply ih _ _ _ hrest h0
+      intro x hx
+      cases hx with
+      | head => exact hr1
+      | tail _ hx' => exact hk x hx'
+
+/-- `checkSheet` only moves cells around and adds empty ones -/
+theorem checkSheet_P {P : Cell → Prop} (he : P emptyCell) (rows : List Row) (g : Grid)
+    (h : checkSheet rows = .ok g) (hr : ∀ r ∈ rows, ∀ c ∈ r.cells, P c) : CellsP P g := by
+  unfold checkSheet at h
+  split at h
+  · cases h
+  split at h
+  · cases h
+  have hs := scan_cells_P (P := P) rows 0 [] [] hr (fun _ h => absurd h List.not_mem_nil) (fun _ h => absurd h List.not_mem_nil)
+  generalize scan rows 0 [] [] = res at h hs
+  obtain ⟨row, r0, kept⟩ := res
+  simp only at h hs
+  split at h
+  · cases h
+  have hg0 : CellsP P (List.replicate row.toNat emptyRow) := by
+    intro r hr' c hc
+    have := (List.mem_replicate.mp hr').2
+    rw [this] at hc; simp [emptyRow] at hc
+  cases hp : placeRows (List.replicate row.toNat emptyRow) 0 kept with
+  | ok p =>
+    obtain ⟨g1, last⟩ := p
+    rw [hp] at h; simp only [Outcome.bind] at h
+    have hg1 := placeRows_P kept _ _ _ _ hp hg0 hs.2
+    cases hq : r0Rows g1 r0 with
+    | ok g2 =>
+      rw [hq] at h; simp only [Outcome.bind] at h
+      exact fillRows_P he _ _ _ _ h (r0Rows_P he r0 _ _ hq hg1 hs.1)
+    | err => rw [hq] at h; simp [Outcome.bind] at h
+    | panic => rw [hq] at h; simp [Outcome.bind] at h
+  | err => rw [hp] at h; simp [Outcome.bind] at h
+  | panic => rw [hp] at h; simp [Outcome.bind] at h
+
+
+/-! ## unzip size accounting -/
+
+theorem zipAccount_iff (sizes : List Nat) : ∀ (run limit : Nat), run ≤ limit →
+    (zipAccount sizes run limit = true ↔ run + sizes.sum ≤ limit) := by
+  induction sizes with
+  | nil => intro run limit h; simp [zipAccount]; exact h
+  | cons x xs ih =>
+    intro run limit h
+    unfold zipAccount
+    split
+    · simp only [List.sum_cons]; constructor
+      · intro h; cases h
+      · intro h; omega
+    · rw [ih _ _ (by omega)]; simp only [List.sum_cons]; omega
 
 end XlModel.Decode
